@@ -95,7 +95,7 @@ def run(ctx):
                rule='MC: bracketing, round trip, normalisation, single-component and scale statements on the rational definition over all weight vectors in '
                     '{0,1,2,5}^3. Exact binding: bubble / dew P and T of synthetic ideal mixtures (1-5 chemicals incl. trace 1:1000 components, any scale and '
                     'order of the chemical list) compared with the rational values. Real packages: measured residuals of every C08 clause')
-    return 'model_checking', cov, ASSUME
+    return 'exploration', cov, ASSUME
 
 
 def replay(ctx, data):
